@@ -181,7 +181,7 @@ def lean_far(m, x, thetas):
 
 def search(ctx):
     rng = ctx.rng
-    n = ctx.n(80, 1000)
+    n = ctx.n(80, 400)
     kwave = 2 * math.pi / (T.WL / T.NMED)
     xmax = 40 if ctx.tier == "quick" else 300
     for i in range(n):
